@@ -2,6 +2,7 @@ import SamplyModel.Lemmas.ChunkCache
 import SamplyModel.Lemmas.ChunkCacheIface
 import SamplyModel.Lemmas.ChunkCacheConc
 import SamplyModel.Lemmas.ChunkCacheConcTerm
+import SamplyModel.Lemmas.ChunkCacheConcSeq
 import SamplyModel.Lemmas.ChunkCacheShared
 import SamplyModel.Lemmas.ChunkCacheCover
 /-!
@@ -355,6 +356,17 @@ theorem C13_interleaving_deadlock_free (c : Cfg) (F : List UInt8) (hc : 0 < c.ch
     (hu : u.finished = false) :
     ∃ k, (runSched c (Sys.init F.length progs) sched).enabled c k = true :=
   sysOk_progress c F progs _ (runSched_ok c F hc hsz hf progs sched _ (sysOk_init c F progs)) j u hj hu
+
+/-- Sequential histories are among the schedules: for every history `ops` there is a schedule of the
+one-thread system with program `ops` that ends in exactly the sequential state `CC.run c |F| ops`, the lock
+free, the thread finished, and its recorded outcomes those of `CC.step` along the history (`CC.seqDone`). So
+`C13_interleaving*` (all schedules) contain `C13_step` & co. (all histories) as the one-thread case, and the
+section model and the sequential model — the one compared with the real code — agree on whole histories. -/
+theorem C13_interleaving_contains_histories (c : Cfg) (F : List UInt8) (hc : 0 < c.chunk)
+    (hsz : F.length < U64) (hf : Faithful F c.src) (ops : List Op) :
+    ∃ sched, runSched c (Sys.init F.length [ops]) sched =
+      ⟨run c F.length ops, none, [⟨.idle, [], seqDone c (St.init F.length) ops []⟩]⟩ :=
+  seq_schedule c F hc hsz hf ops _ (inv_init F) []
 
 /-- Every execution is finite: a scheduled thread that is enabled runs one section and strictly decreases
 `Sys.measure` (4 per call still to make + the sections left in the call in progress), a scheduled thread that
